@@ -9,9 +9,9 @@ static long long g_idx = 0;
 static std::vector<double> levels(int d) { std::vector<double> e(d); for (int i = 0; i < d; i++) e[i] = 0.8 * i - 0.35 * i * i + 0.1; return e; }
 
 struct Sol : squids::SQuIDS {
-  int d;
+  int d; double h0scale = 1.0;
   Sol(unsigned nx, unsigned dim, unsigned nrho, double ti) : squids::SQuIDS(nx, dim, nrho, 1, ti), d(dim) { Set_rel_error(1e-10); Set_abs_error(1e-10); Set_h(1e-3); }
-  std::vector<double> h0spec(double x, unsigned irho) const { std::vector<double> e = levels(d); for (auto& v : e) v *= x * (1 + irho); return e; }
+  std::vector<double> h0spec(double x, unsigned irho) const { std::vector<double> e = levels(d); for (auto& v : e) v *= h0scale * x * (1 + irho); return e; }
   squids::SU_vector H0(double x, unsigned irho) const override { return mkvec(d, ref::basis(d).proj(ref::diag(h0spec(x, irho)))); }
   squids::SU_vector HI(unsigned ix, unsigned irho, double t) const override { std::vector<double> e(d); for (int i = 0; i < d; i++) e[i] = 0.3 * i + 0.1 * ix - 0.2 * irho; return mkvec(d, ref::basis(d).proj(ref::diag(e))); }
   void setrho(unsigned ix, unsigned irho, const std::vector<double>& c) { for (int k = 0; k < d * d; k++) state[ix].rho[irho][k] = c[k]; }
@@ -133,7 +133,7 @@ static void scratch_sequences() {
       std::vector<std::unique_ptr<Sol>> sol; std::vector<double> want(3);
       std::vector<double> grid = {0.5, 1.5, 4.0};
       for (int q = 0; q < 3; q++) {
-        int d = ds[q]; sol.emplace_back(new Sol(3, d, 1, 0.25)); Sol& s = *sol.back(); s.Set_xrange(grid);
+        int d = ds[q]; sol.emplace_back(new Sol(3, d, 1, 0.25)); Sol& s = *sol.back(); s.h0scale = 1.0 + 0.37 * q; s.Set_xrange(grid);   // every object has its own H0
         for (unsigned ix = 0; ix < 3; ix++) s.setrho(ix, 0, scaled(probe(d, ix), 1 + 0.1 * q));
         s.Evolve(0.75);
         double x = 2.0, f2 = (x - 1.5) / 2.5; std::vector<double> rx(d * d); for (int k = 0; k < d * d; k++) rx[k] = (1 - f2) * s.getrho(1, 0)[k] + f2 * s.getrho(2, 0)[k];
@@ -142,7 +142,9 @@ static void scratch_sequences() {
       for (int round = 0; round < 2; round++) for (int q = 0; q < 3; q++) {
         count("evaluations"); count("scratch_sequence_queries");
         int d = ds[q]; std::vector<bool> avr(d * (d - 1) / 2, false);
-        double g1 = sol[q]->GetExpectationValueD(mkvec(d, probe(d, 2)), 0, 2.0), g2 = sol[q]->GetExpectationValueD(mkvec(d, probe(d, 2)), 0, 2.0, 1e300, avr);
+        double g1 = NAN, g2 = NAN;
+        try { g1 = sol[q]->GetExpectationValueD(mkvec(d, probe(d, 2)), 0, 2.0); g2 = sol[q]->GetExpectationValueD(mkvec(d, probe(d, 2)), 0, 2.0, 1e300, avr); }
+        catch (const std::exception& ex) { violation("GetExpectationValueD:thread-local-scratch:throws-for-x-inside", J().i("d1", d1).i("d2", d2).i("d3", d3).i("query", q).str("what", ex.what()).done()); continue; }
         double tol = 1e-12 * (1 + std::fabs(want[q])) * d * d;
         if (!(std::fabs(g1 - want[q]) <= tol) || !(std::fabs(g2 - want[q]) <= tol)) violation("GetExpectationValueD:thread-local-scratch:dimension-sequence", J().i("d1", d1).i("d2", d2).i("d3", d3).i("query", q).i("round", round).num("got", g1).num("got_avg", g2).num("want", want[q]).done());
       }
